@@ -235,7 +235,7 @@ def classify_key(key, comp_attrs=()):
         return ("mem", "OUT")
     if "inner_nonlocal_names" in key:
         return ("mem", "INN")
-    if "target_names" in key or "comp_stack" in key or any(f".{a}" in key for a in comp_attrs):
+    if any(f".{a}" in key for a in comp_attrs):
         return ("mem", "COMP")
     if "globals_used_in_comp" in key:
         return ("mem", "GUC")
